@@ -8,6 +8,7 @@ import PyIkev2.Model.Wire
 import PyIkev2.Model.Toy
 import PyIkev2.Model.NegotiateCmd
 import PyIkev2.Model.SelectorsCmd
+import PyIkev2.Model.KeysCmd
 
 open PyIkev2 PyIkev2.Impl
 
@@ -49,7 +50,7 @@ def step (line : String) : String :=
   match (line.trimAscii.toString.splitOn " ").filter (· ≠ "") with
   | [] => "bad-op"
   | cmd :: args =>
-    match ((codecCmd cmd args).orElse (fun _ => NegotiateCmd.cmd cmd args)).orElse (fun _ => SelectorsCmd.cmd cmd args) with
+    match (((codecCmd cmd args).orElse (fun _ => NegotiateCmd.cmd cmd args)).orElse (fun _ => SelectorsCmd.cmd cmd args)).orElse (fun _ => KeysCmd.cmd cmd args) with
     | some out => out
     | none => "bad-op"
 
